@@ -76,14 +76,34 @@ func (p *ProofU) correctResponseSizes(pk *gabikeys.PublicKey) bool {
 	return p.VPrimeResponse.Cmp(minimum) >= 0 && p.VPrimeResponse.Cmp(maximum) <= 0
 }
 
+// wellFormed checks that all mandatory parts of the (untrusted) proof are present
+// and that its attribute indices refer to bases of the public key.
+func (p *ProofU) wellFormed(pk *gabikeys.PublicKey) bool {
+	if p.U == nil || p.C == nil || p.VPrimeResponse == nil || p.SResponse == nil {
+		return false
+	}
+	for i, response := range p.MUserResponses {
+		if response == nil || i < 0 || i >= len(pk.R) {
+			return false
+		}
+	}
+	return true
+}
+
 // VerifyWithChallenge verifies whether the proof is correct.
 func (p *ProofU) VerifyWithChallenge(pk *gabikeys.PublicKey, reconstructedChallenge *big.Int) bool {
+	if !p.wellFormed(pk) {
+		return false
+	}
 	return p.correctResponseSizes(pk) && p.C.Cmp(reconstructedChallenge) == 0
 }
 
 // reconstructUcommit reconstructs U from the information in the proof and the
 // provided public key.
 func (p *ProofU) reconstructUcommit(pk *gabikeys.PublicKey) (*big.Int, error) {
+	if !p.wellFormed(pk) {
+		return nil, errors.New("malformed proof")
+	}
 	// Reconstruct Ucommit
 	// U_commit = U^{-C} * S^{VPrimeResponse} * R_0^{SResponse}
 	Uc, err := common.ModPow(p.U, new(big.Int).Neg(p.C), pk.N)
@@ -189,6 +209,9 @@ func (p *ProofD) reconstructRangeProofStructures(pk *gabikeys.PublicKey) error {
 	for index, proofs := range p.RangeProofs {
 		p.cachedRangeStructures[index] = []*rangeproof.ProofStructure{}
 		for _, proof := range proofs {
+			if proof == nil {
+				return errors.New("missing range proof")
+			}
 			s, err := proof.ExtractStructure(index, pk)
 			if err != nil {
 				return err
@@ -197,6 +220,25 @@ func (p *ProofD) reconstructRangeProofStructures(pk *gabikeys.PublicKey) error {
 		}
 	}
 	return nil
+}
+
+// wellFormed checks that all mandatory parts of the (untrusted) proof are present
+// and that its attribute indices refer to bases of the public key.
+func (p *ProofD) wellFormed(pk *gabikeys.PublicKey) bool {
+	if p.C == nil || p.A == nil || p.EResponse == nil || p.VResponse == nil {
+		return false
+	}
+	for i, response := range p.AResponses {
+		if response == nil || i < 0 || i >= len(pk.R) {
+			return false
+		}
+	}
+	for i, attribute := range p.ADisclosed {
+		if attribute == nil || i < 0 || i >= len(pk.R) {
+			return false
+		}
+	}
+	return true
 }
 
 // correctResponseSizes checks the sizes of the elements in the ProofD proof.
@@ -287,6 +329,9 @@ func (p *ProofD) HasNonRevocationProof() bool {
 // VerifyWithChallenge verifies the proof against the given public key and the provided
 // reconstructed challenge.
 func (p *ProofD) VerifyWithChallenge(pk *gabikeys.PublicKey, reconstructedChallenge *big.Int) bool {
+	if !p.wellFormed(pk) {
+		return false
+	}
 	var notrevoked bool
 	// Validate non-revocation
 	if p.HasNonRevocationProof() {
@@ -308,6 +353,9 @@ func (p *ProofD) VerifyWithChallenge(pk *gabikeys.PublicKey, reconstructedChalle
 // ChallengeContribution returns the contribution of this proof to the
 // challenge.
 func (p *ProofD) ChallengeContribution(pk *gabikeys.PublicKey) ([]*big.Int, error) {
+	if !p.wellFormed(pk) {
+		return nil, errors.New("malformed proof")
+	}
 	z, err := p.reconstructZ(pk)
 	if err != nil {
 		return nil, errors.WrapPrefix(err, "Could not reconstruct Z", 0)
